@@ -3,6 +3,7 @@ package main
 import (
 	"fmt"
 	"go/types"
+	"strings"
 
 	"golang.org/x/tools/go/ssa"
 )
@@ -14,6 +15,28 @@ type State struct {
 	alloc  string                  // allocation counter (Int)
 	defers []deferRec
 	epoch  int // bumped at every wholesale havoc; names lazily created heaps
+	// write log per leaf class: pending single-cell stores on top of
+	// heaps[class] (the base).  The heap denoted is base with the log applied
+	// in order; keeping stores at cell level avoids ite terms over whole
+	// arrays at control-flow joins (they force array extensionality).
+	log map[string][]logEntry
+	mat map[string]string // cache: materialised heap term per class
+}
+
+type logEntry struct {
+	a Addr
+	v string
+}
+
+// setHeap replaces the heap of a class by a fully materialised term.
+func setHeap(s *State, class, term string) {
+	s.heaps[class] = term
+	if s.log != nil {
+		delete(s.log, class)
+	}
+	if s.mat != nil {
+		delete(s.mat, class)
+	}
 }
 
 type deferRec struct {
@@ -33,18 +56,66 @@ func (s *State) clone() *State {
 		n.heaps[k] = v
 	}
 	n.defers = append([]deferRec(nil), s.defers...)
+	if len(s.log) > 0 {
+		n.log = make(map[string][]logEntry, len(s.log))
+		for k, v := range s.log {
+			n.log[k] = v // entries are appended copy-on-write
+		}
+	}
+	if len(s.mat) > 0 {
+		n.mat = make(map[string]string, len(s.mat))
+		for k, v := range s.mat {
+			n.mat[k] = v
+		}
+	}
 	return n
 }
 
-type Addr struct{ Ref, Idx, Sub string }
+type Addr struct {
+	Ref, Idx, Sub string
+	// Via describes how the access reaches the cell: "leaf offset off of an
+	// object of struct type T".  Several descriptors may hold at once (nested
+	// structs).  Used only to decide at generation time that two accesses
+	// cannot touch the same cell (Go type safety: objects of different struct
+	// types overlap only if one contains the other; different leaf offsets of
+	// the same struct type are different cells).
+	Via []viaTag
+}
 
-func ptrAddr(v Val) Addr { return Addr{v.L[0], v.L[1], v.L[2]} }
+type viaTag struct {
+	T   types.Type
+	Off int
+}
+
+func ptrAddr(v Val) Addr { return Addr{Ref: v.L[0], Idx: v.L[1], Sub: v.L[2], Via: v.Via} }
 
 func (a Addr) plusSub(k int) Addr {
 	if k == 0 {
 		return a
 	}
-	return Addr{a.Ref, a.Idx, bvadd(a.Sub, bv64(int64(k)))}
+	var via []viaTag
+	for _, v := range a.Via {
+		via = append(via, viaTag{v.T, v.Off + k})
+	}
+	return Addr{Ref: a.Ref, Idx: a.Idx, Sub: bvadd(a.Sub, bv64(int64(k))), Via: via}
+}
+
+// viaDistinct reports whether the descriptors prove that the two cells differ.
+func viaDistinct(a, b Addr) bool {
+	for _, x := range a.Via {
+		for _, y := range b.Via {
+			if types.Identical(x.T, y.T) {
+				if x.Off != y.Off {
+					return true
+				}
+				continue
+			}
+			if !containsType(x.T, y.T, 0) && !containsType(y.T, x.T, 0) {
+				return true
+			}
+		}
+	}
+	return false
 }
 
 func bvadd(a, b string) string {
@@ -61,8 +132,31 @@ func bvadd(a, b string) string {
 type Enc struct {
 	c        *Ctx
 	l        *Layout
-	objTypes *ObjTypes
-	ixWrap   bool
+	objTypes  *ObjTypes
+	ixWrap    bool
+	allocType types.Type // type of the struct object being allocated (set before allocObj)
+	onWrite   func(w writeRec)
+}
+
+// writeRec describes one heap update performed by the function (for the
+// frame check: every write must stay inside the modifies clause or touch an
+// object allocated by the function itself).
+type writeRec struct {
+	Class  string
+	Kind   string // cell, subrange, idxrange, object, all
+	Ref    string
+	Idx    string // cell/subrange: the element; idxrange: low bound
+	IdxHi  string
+	Sub    string // cell: the cell; subrange: low bound
+	SubHi  string
+	Guard  string
+	What   string
+}
+
+func (e *Enc) noteWrite(w writeRec) {
+	if e.onWrite != nil {
+		e.onWrite(w)
+	}
 }
 
 // ObjTypes gives every object an allocation-type tag so that type-safe
@@ -70,8 +164,34 @@ type Enc struct {
 // points into an array allocation of E, and a *T can point into such an
 // allocation only if E contains a T.  (DESIGN 2.4, "typed objects".)
 type ObjTypes struct {
-	elems []types.Type // listed multi-cell element types
-	keys  map[string]int
+	elems   []types.Type // listed multi-cell element types (array allocations, tags 1000+i)
+	keys    map[string]int
+	structs []types.Type // named struct types of the repository (struct allocations, tags 100000+i)
+	skeys   map[string]int
+	memo    map[string]string
+}
+
+// structTag is the allocation tag of a named struct type of the repository.
+func (o *ObjTypes) structTag(t types.Type) (string, bool) {
+	if i, ok := o.skeys[types.TypeString(t, nil)]; ok {
+		return fmt.Sprint(100000 + i), true
+	}
+	return "", false
+}
+
+// allocTag is the tag of an object allocated with type t (array element type
+// elem for array allocations).
+func (o *ObjTypes) allocTag(t types.Type, elem types.Type) (string, bool) {
+	if elem != nil {
+		if tag, ok := o.tagOf(elem); ok {
+			return tag, true
+		}
+		return "", false
+	}
+	if t != nil {
+		return o.structTag(t)
+	}
+	return "", false
 }
 
 func (o *ObjTypes) tagOf(t types.Type) (string, bool) {
@@ -83,13 +203,78 @@ func (o *ObjTypes) tagOf(t types.Type) (string, bool) {
 
 // ptrFact constrains the allocation type of the object a *T points into.
 func (o *ObjTypes) ptrFact(l *Layout, t types.Type, ref string) string {
-	alts := []string{"(< (objtype " + ref + ") 1000)"}
-	for i, e := range o.elems {
-		if containsType(e, t, 0) {
-			alts = append(alts, eq("(objtype "+ref+")", fmt.Sprint(1000+i)))
-		}
+	key := types.TypeString(t, nil)
+	if o.memo == nil {
+		o.memo = map[string]string{}
 	}
-	return or(alts...)
+	tmpl, ok := o.memo[key]
+	if !ok {
+		var alts []string
+		// objects of unlisted allocation types (tag < 1000) can hold a T only
+		// if T is not itself a listed struct type of the repository
+		if _, listed := o.skeys[key]; !listed {
+			alts = append(alts, "(< (objtype @) 1000)")
+		}
+		for i, e := range o.elems {
+			if e != nil && containsType(e, t, 0) {
+				alts = append(alts, eq("(objtype @)", fmt.Sprint(1000+i)))
+			}
+		}
+		for i, st := range o.structs {
+			if containsType(st, t, 0) {
+				alts = append(alts, eq("(objtype @)", fmt.Sprint(100000+i)))
+			}
+		}
+		tmpl = or(alts...)
+		o.memo[key] = tmpl
+	}
+	return strings.ReplaceAll(tmpl, "@", ref)
+}
+
+// scalarSliceFact constrains the allocation type of the object a []E (E a
+// one-cell type) points into.
+func (o *ObjTypes) scalarSliceFact(elem types.Type, ref string) string {
+	key := "[]" + types.TypeString(elem, nil)
+	if o.memo == nil {
+		o.memo = map[string]string{}
+	}
+	tmpl, ok := o.memo[key]
+	if !ok {
+		alts := []string{"(< (objtype @) 1000)"}
+		for i, e := range o.elems {
+			if e != nil && containsArrayOf(e, elem, 0) {
+				alts = append(alts, eq("(objtype @)", fmt.Sprint(1000+i)))
+			}
+		}
+		for i, st := range o.structs {
+			if containsArrayOf(st, elem, 0) {
+				alts = append(alts, eq("(objtype @)", fmt.Sprint(100000+i)))
+			}
+		}
+		tmpl = or(alts...)
+		o.memo[key] = tmpl
+	}
+	return strings.ReplaceAll(tmpl, "@", ref)
+}
+
+func containsArrayOf(outer, elem types.Type, depth int) bool {
+	if depth > 8 {
+		return true
+	}
+	switch u := outer.Underlying().(type) {
+	case *types.Struct:
+		for i := 0; i < u.NumFields(); i++ {
+			if containsArrayOf(u.Field(i).Type(), elem, depth+1) {
+				return true
+			}
+		}
+	case *types.Array:
+		if types.Identical(u.Elem().Underlying(), elem.Underlying()) {
+			return true
+		}
+		return containsArrayOf(u.Elem(), elem, depth+1)
+	}
+	return false
 }
 
 func containsType(outer, inner types.Type, depth int) bool {
@@ -112,24 +297,159 @@ func containsType(outer, inner types.Type, depth int) bool {
 	return false
 }
 
+// heap returns the (materialised) heap term of a class.
 func (e *Enc) heap(s *State, sort string) string {
 	h, ok := s.heaps[sort]
 	if !ok {
 		panic("no heap for " + sort)
 	}
+	lg := s.log[sort]
+	if len(lg) == 0 {
+		return h
+	}
+	if m, ok := s.mat[sort]; ok {
+		return m
+	}
+	m := e.applyLog(sort, h, lg)
+	if s.mat == nil {
+		s.mat = map[string]string{}
+	}
+	s.mat[sort] = m
+	return m
+}
+
+// applyLog builds base with the logged stores applied in order.
+func (e *Enc) applyLog(sort, base string, lg []logEntry) string {
+	h := base
+	for _, en := range lg {
+		mid := e.c.define("mid", midSort(sort), sel(h, en.a.Ref))
+		inner := sel(mid, en.a.Idx)
+		h = e.c.define("H"+className(sort), heapSort(sort), sto(h, en.a.Ref, sto(mid, en.a.Idx, sto(inner, en.a.Sub, en.v))))
+	}
 	return h
 }
 
+// subParts splits a sub-address term into (base, constant offset).
+func subParts(t string) (string, int64, bool) {
+	if strings.HasPrefix(t, "(_ bv") {
+		var n int64
+		if _, err := fmt.Sscanf(t, "(_ bv%d 64)", &n); err == nil {
+			return "", n, true
+		}
+	}
+	if strings.HasPrefix(t, "(bvadd ") && strings.HasSuffix(t, " 64))") {
+		i := strings.LastIndex(t, " (_ bv")
+		if i > 0 {
+			var n int64
+			if _, err := fmt.Sscanf(t[i+1:], "(_ bv%d 64))", &n); err == nil {
+				return t[len("(bvadd "):i], n, true
+			}
+		}
+	}
+	return t, 0, true
+}
+
+// distinctAddr reports whether two addresses are certainly different cells
+// (same object and element, different constant offsets from the same base).
+func distinctAddr(a, b Addr) bool {
+	if viaDistinct(a, b) {
+		return true
+	}
+	if a.Ref != b.Ref || a.Idx != b.Idx {
+		return false
+	}
+	ab, ao, ok1 := subParts(a.Sub)
+	bb, bo, ok2 := subParts(b.Sub)
+	return ok1 && ok2 && ab == bb && ao != bo
+}
+
+func sameAddr(a, b Addr) bool { return a.Ref == b.Ref && a.Idx == b.Idx && a.Sub == b.Sub }
+
+// logStore records a single-cell store.
+func (e *Enc) logStore(s *State, sort string, a Addr, v string) {
+	e.noteWrite(writeRec{Class: sort, Kind: "cell", Ref: a.Ref, Idx: a.Idx, Sub: a.Sub})
+	if s.log == nil {
+		s.log = map[string][]logEntry{}
+	}
+	old := s.log[sort]
+	if len(old) >= 48 {
+		// keep logs bounded: fold into the base
+		setHeap(s, sort, e.applyLog(sort, s.heaps[sort], old))
+		old = nil
+		if s.log == nil {
+			s.log = map[string][]logEntry{}
+		}
+	}
+	nl := make([]logEntry, 0, len(old)+1)
+	// an earlier store to the same cell is dead if everything after it is
+	// certainly a different cell
+	drop := -1
+	for i := len(old) - 1; i >= 0; i-- {
+		if sameAddr(old[i].a, a) {
+			drop = i
+			break
+		}
+		if !distinctAddr(old[i].a, a) {
+			break
+		}
+	}
+	for i, en := range old {
+		if i != drop {
+			nl = append(nl, en)
+		}
+	}
+	nl = append(nl, logEntry{a, v})
+	s.log[sort] = nl
+	if s.mat != nil {
+		delete(s.mat, sort)
+	}
+}
+
+// logLoad reads a cell through the log.
+func (e *Enc) logLoad(s *State, sort string, a Addr) string {
+	lg := s.log[sort]
+	// entries that may touch the cell, oldest first; everything before a
+	// store to exactly this cell is irrelevant
+	var rel []logEntry
+	for i := len(lg) - 1; i >= 0; i-- {
+		if sameAddr(lg[i].a, a) {
+			rel = append(rel, lg[i])
+			break
+		}
+		if !distinctAddr(lg[i].a, a) {
+			rel = append(rel, lg[i])
+		}
+	}
+	if len(rel) == 0 {
+		return sel(sel(sel(s.heaps[sort], a.Ref), a.Idx), a.Sub)
+	}
+	if len(rel) == 1 && sameAddr(rel[0].a, a) {
+		return rel[0].v
+	}
+	// value = the newest possibly-aliasing store that hits the cell, else
+	// what is below: an ite chain over address equality (no array terms)
+	var t string
+	last := rel[len(rel)-1]
+	if sameAddr(last.a, a) {
+		t = last.v
+		rel = rel[:len(rel)-1]
+	} else {
+		t = sel(sel(sel(s.heaps[sort], a.Ref), a.Idx), a.Sub)
+	}
+	for i := len(rel) - 1; i >= 0; i-- {
+		en := rel[i]
+		hit := and(eq(en.a.Ref, a.Ref), eq(en.a.Idx, a.Idx), eq(en.a.Sub, a.Sub))
+		t = ite(hit, en.v, t)
+	}
+	return t
+}
+
 func (e *Enc) loadLeaf(s *State, sort string, a Addr) string {
-	return sel(sel(sel(e.heap(s, sort), a.Ref), a.Idx), a.Sub)
+	return e.logLoad(s, sort, a)
 }
 
 func (e *Enc) storeLeaf(s *State, sort string, a Addr, v string) {
-	h := e.heap(s, sort)
-	mid := sel(h, a.Ref)
-	inner := sel(mid, a.Idx)
-	nh := sto(h, a.Ref, sto(mid, a.Idx, sto(inner, a.Sub, v)))
-	s.heaps[sort] = e.c.define("H"+className(sort), heapSort(sort), nh)
+	e.logStore(s, sort, a, v)
 }
 
 // load reads a value of type t at address a.
@@ -148,23 +468,8 @@ func (e *Enc) store(s *State, a Addr, v Val) {
 	if len(sorts) != len(v.L) {
 		panic(fmt.Sprintf("store: %d sorts vs %d leaves for %s", len(sorts), len(v.L), v.T))
 	}
-	// group by class so each heap is rebuilt once
-	byClass := map[string][]int{}
-	var order []string
 	for k, so := range sorts {
-		if _, ok := byClass[so]; !ok {
-			order = append(order, so)
-		}
-		byClass[so] = append(byClass[so], k)
-	}
-	for _, so := range order {
-		h := e.heap(s, so)
-		mid := e.c.define("mid", midSort(so), sel(h, a.Ref))
-		inner := sel(mid, a.Idx)
-		for _, k := range byClass[so] {
-			inner = sto(inner, a.plusSub(k).Sub, v.L[k])
-		}
-		s.heaps[so] = e.c.define("H"+className(so), heapSort(so), sto(h, a.Ref, sto(mid, a.Idx, inner)))
+		e.logStore(s, so, a.plusSub(k), v.L[k])
 	}
 }
 
@@ -196,11 +501,10 @@ func (e *Enc) allocObj(s *State, elem types.Type, guard string) string {
 	s.alloc = e.c.define("alloc", SInt, "(+ "+s.alloc+" 1)")
 	if e.objTypes != nil {
 		tag := ""
-		if elem != nil {
-			if t, ok := e.objTypes.tagOf(elem); ok {
-				tag = t
-			}
+		if t, ok := e.objTypes.allocTag(e.allocType, elem); ok {
+			tag = t
 		}
+		e.allocType = nil
 		if tag != "" {
 			e.c.assume(guard, eq("(objtype "+r+")", tag))
 		} else {
@@ -214,9 +518,10 @@ func (e *Enc) allocObj(s *State, elem types.Type, guard string) string {
 // given classes.
 func (e *Enc) zeroObject(s *State, ref string, classes []string) {
 	for _, so := range classes {
+		e.noteWrite(writeRec{Class: so, Kind: "object", Ref: ref})
 		h := e.heap(s, so)
 		z := fmt.Sprintf("((as const %s) ((as const %s) %s))", midSort(so), innerSort(so), zeroOf(so))
-		s.heaps[so] = e.c.define("H"+className(so), heapSort(so), sto(h, ref, z))
+		setHeap(s, so, e.c.define("H"+className(so), heapSort(so), sto(h, ref, z)))
 	}
 }
 
@@ -249,6 +554,12 @@ func (e *Enc) wfInto(s *State, t types.Type, L []string, fs *[]string, depth int
 		*fs = append(*fs, "(<= 0 "+L[0]+")", "(< "+L[0]+" "+s.alloc+")",
 			"(bvule "+L[3]+" "+L[4]+")", "(bvult "+L[4]+" "+bv64(maxLen)+")",
 			implies(eq(L[0], "0"), eq(L[4], bv64(0))))
+		if e.l.oneCell(u.Elem()) && e.objTypes != nil {
+			// a slice of scalars points into a scalar array allocation or
+			// into an array field of a struct: never into a struct of the
+			// repository that has no such array
+			*fs = append(*fs, e.objTypes.scalarSliceFact(u.Elem(), L[0]))
+		}
 		if !e.l.oneCell(u.Elem()) {
 			*fs = append(*fs, eq(L[2], bv64(0)), "(bvult "+L[1]+" "+bv64(maxLen)+")")
 			if e.objTypes != nil {
